@@ -72,4 +72,12 @@ def handlersAtomic : Bool :=
   calls.any (fun c => c.1 == "Client.Connect.func" && c.2.1 == "addReadErr") &&
   calls.any (fun c => c.1 == "Client.Connect.func" && c.2.1 == "addSendErr")
 
+/-- no method calls, while holding a mutex of its receiver, another method of that receiver that
+acquires the same mutex (a recursive read lock deadlocks as soon as a writer queues in between) -/
+def noReentrantLock : Bool := reentrant.isEmpty
+
+/-- a Get holds the instance's read lock from start until it returns: what it streams is one
+state of the table (the assumption of the `GS` model and of C07 under concurrency) -/
+def getHoldsLock : Bool := fnLocks.contains ("RIBHolder.GetRIB", "r.mu", false)
+
 end Gribi.FactsOk
